@@ -8,7 +8,7 @@ From Ergo Require Import Common.Base Sched.Model Sched.CountFacts.
 (* the spawner while the process is still in state Init *)
 Definition spawn_pre (p : pc) : bool :=
   match p with
-  | P_init _ _ | P_cb _ _ | P_link _ _ _ | P_selfcas _ _ | P_sleep => true
+  | P_init _ _ | P_cb _ _ | P_lim _ _ _ | P_link _ _ _ | P_selfcas _ _ | P_sleep => true
   | _ => false
   end.
 (* every other owner before its finalising swap *)
@@ -94,7 +94,7 @@ Proof.
     | H : context [match mbeh ?m with _ => _ end] |- _ => destruct (mbeh m)
     end;
     cbn [run_pre holder_pre spawn_pre no_init at_kst post_early post_late impossible b2n spawn_w andb negb] in *;
-    cbn [st fin terms intable initfail upd_st upd_qs upd_intable upd_innames add_handled add_ok add_err add_term
+    cbn [st fin terms intable initfail upd_st upd_qs upd_intable upd_innames add_handled add_ok add_err add_fb add_term
          set_killed set_initfail finalise] in *;
     rewrite ?Efin, ?Est in *;
     repeat split; intros; try discriminate; try congruence; try lia;
